@@ -371,6 +371,8 @@ def check_are_named(repo: Repo, res: Result) -> FuncInfo | None:
     handoffs: list[tuple[ast.Call, FuncInfo]] = []
     for n in all_nodes(view):
         if isinstance(n, ast.Call) and isinstance(n.func, ast.Attribute) and (n.args or n.keywords) and not (isinstance(n.func.value, ast.Name) and n.func.value.id in ("self", "cls")):
+            if any(isinstance(a, ast.Lambda) and getattr(a, "_applied", False) for a in _ancestors(n)):
+                continue  # the body of a lambda that was beta-reduced: its copy at the place of application is the event
             src = getattr(n, "_src", None)
             ctx, orig = src if src is not None else (view, n)
             try:
@@ -388,7 +390,20 @@ def check_are_named(repo: Repo, res: Result) -> FuncInfo | None:
                 if cand is not None and not cand.is_property and not _is_self_like(recv) and _types_rule(repo, T, view, n.func.value, rule) is not False and (_types_rule(repo, T, view, recv, rule) is not False):
                     handoffs.append((n, cand))
     if len(handoffs) != 1:
-        if not handoffs:
+        def _never_read(x: ast.AST) -> bool:
+            """Bound to a local that nothing reads: the callable is positively never applied."""
+            p_ = parent(x)
+            if isinstance(p_, (ast.Assign, ast.AnnAssign)) and p_.value is x:
+                tgs = p_.targets if isinstance(p_, ast.Assign) else [p_.target]
+                if len(tgs) == 1 and isinstance(tgs[0], ast.Name):
+                    return not any(isinstance(y, ast.Name) and y.id == tgs[0].id and isinstance(y.ctx, ast.Load) for y in all_nodes(view))
+            return False
+
+        pending = next((x for x in all_nodes(view) if ((isinstance(x, ast.Lambda) and not getattr(x, "_applied", False)) or (isinstance(x, ast.Call) and isinstance(x.func, ast.Name) and x.func.id in ("methodcaller", "partial"))) and not _never_read(x)), None)
+        if not handoffs and pending is not None:
+            # a step of the rule language is packed into a callable that the view does not show being applied
+            res.undecide("C05.R1", construct, f"no call on the wrapped rule is visible, but `{norm(pending, 60)}` builds a callable whose application was not followed", where(an, an.node))
+        elif not handoffs:
             res.add("C05.R1", construct, False, "LayerRule.are_named hands no module specifications to the wrapped rule", where(an, an.node), kind="flow")
         else:
             res.undecide("C05.R1", construct, f"{len(handoffs)} calls hand arguments to the wrapped rule: {[norm(c, 50) for c, _ in handoffs]}", where(an, an.node))
@@ -530,6 +545,25 @@ def _other_filter_attribute(repo: Repo, flag: ast.expr, mvars: set[str]) -> bool
     return False
 
 
+def _part_of_param(view: FuncInfo, e: ast.expr, param: str, depth: int = 0) -> ast.expr | None:
+    """The expression when it is a slice / a single picked element of (the listified form of) the parameter."""
+    if depth > 4:
+        return None
+    e = _strip_transparent(e)
+    if isinstance(e, ast.Subscript) and isinstance(e.slice, ast.Slice) and (e.slice.lower is not None or e.slice.upper is not None or e.slice.step is not None):
+        if _derives_from_param(view, e.value, param) or _part_of_param(view, e.value, param, depth + 1) is not None:
+            return e
+    if isinstance(e, (ast.List, ast.Tuple)) and len(e.elts) == 1 and isinstance(e.elts[0], ast.Subscript) and not isinstance(e.elts[0].slice, ast.Slice) and _derives_from_param(view, e.elts[0].value, param):
+        return e
+    if isinstance(e, ast.Name) and e.id != param:
+        from .c05_views import assignments_of
+
+        asg = assignments_of(view, e.id)
+        if asg and len(asg) == 1:
+            return _part_of_param(view, asg[0][1], param, depth + 1)
+    return None
+
+
 def _judge_lowering(repo: Repo, T, view: FuncInfo, p: Production, layers_param: str | None) -> tuple[str, str]:
     pv = p.view or view
     elt = p.elt
@@ -627,6 +661,15 @@ def _judge_lowering(repo: Repo, T, view: FuncInfo, p: Production, layers_param: 
     else:
         over_param = layers_param is not None and _derives_from_param(pv, lit, layers_param)
     if not over_param:
+        part = None
+        if p.view is not None and p.binding is not None:
+            for q, a in p.binding.items():
+                if _derives_from_param(pv, lit, q) and layers_param is not None:
+                    part = part or _part_of_param(p.caller or view, a, layers_param)
+        elif layers_param is not None:
+            part = _part_of_param(pv, lit, layers_param)
+        if part is not None:
+            return "violated", f"only a part of the layers named in the rule is lowered (`{norm(part, 50)}`): the other named layers do not reach the wrapped rule"
         return "undecided", f"the layer loop iterates `{norm(lit, 60)}`, not the layers named in the rule"
     return "ok", ""
 
